@@ -377,9 +377,13 @@ func c15(args []string) int {
 			return o
 		}
 		var qs []string
-		for _, c := range crits {
+		firstObs := map[int][2]ssObs{}
+		for ci2, c := range crits {
 			o1 := observe(lb1, c)
 			o2 := observe(lb2, c)
+			if ci2 < 4 {
+				firstObs[ci2] = [2]ssObs{o1, o2}
+			}
 			rep := map[string]interface{}{"config": confRep, "criteria": c, "filter_builder": o1, "preindex_builder": o2}
 			// ---- the property itself
 			if o1.Num != o2.Num || o1.Exists != o2.Exists || fmt.Sprint(o1.IDs) != fmt.Sprint(o2.IDs) {
@@ -509,6 +513,28 @@ func c15(args []string) int {
 			qs = append(qs, fmt.Sprintf("(%s, %s, %s)", cq, coqObs(o1), coqObs(o2)))
 			run.Sum.Distribution["queries"]++
 		}
+		// ---- no state may leak between queries: the first criteria asked again after all the others (A -> B -> A) give
+		// the same answers, and the same answers as balancers built afresh from the same host set
+		{
+			fresh1 := cluster.NewSubsetLoadBalancer(info, hostSet)
+			fresh2 := cluster.NewSubsetLoadBalancerPreIndex(info, hostSet)
+			for ci2 := 0; ci2 < 4 && ci2 < len(crits); ci2++ {
+				c := crits[ci2]
+				for bi, pair := range [][2]types.LoadBalancer{{lb1, fresh1}, {lb2, fresh2}} {
+					again, fr := observe(pair[0], c), observe(pair[1], c)
+					first := firstObs[ci2][bi]
+					key := func(o ssObs) string { return fmt.Sprint(o.Num, o.Exists, o.IDs) }
+					if key(again) != key(first) {
+						run.Fail("subset:answer-depends-on-earlier-queries", fmt.Sprintf("criteria %v asked again after %d other queries: first (HostNum %d, exists %v, hosts %v), now (HostNum %d, exists %v, hosts %v)", c, len(crits), first.Num, first.Exists, first.IDs, again.Num, again.Exists, again.IDs),
+							map[string]interface{}{"config": confRep, "criteria": c, "builder": bi})
+					}
+					if key(again) != key(fr) {
+						run.Fail("subset:answer-differs-from-fresh-balancer", fmt.Sprintf("criteria %v: the balancer in use answers (HostNum %d, exists %v, hosts %v), a freshly built one (HostNum %d, exists %v, hosts %v)", c, again.Num, again.Exists, again.IDs, fr.Num, fr.Exists, fr.IDs),
+							map[string]interface{}{"config": confRep, "criteria": c, "builder": bi})
+					}
+				}
+			}
+		}
 		var hs []string
 		for i := range hosts {
 			hs = append(hs, fmt.Sprintf("mkSH %d %s %s", i, coqPath(metas[i]), CoqBool(healthy[i])))
@@ -540,5 +566,6 @@ func c15(args []string) int {
 	}
 	sh.Close()
 	c15crit(run)
+	c15upd(run)
 	return run.Finish()
 }
